@@ -44,6 +44,12 @@ type Pair struct {
 	// OnClose0, if set, is called (with the pair lock released) the first time
 	// end 0 is closed.
 	OnClose0 func()
+
+	// Tap0, if set, observes every successful Write of end 0 (corebgp's side)
+	// at the moment the transport accepts it, under the pair lock: this is
+	// "the wire". Data later discarded by a reset or by the peer's close is
+	// still seen here.
+	Tap0 func(b []byte)
 }
 
 // NewPair creates a connection whose corebgp end has local address a0 and
@@ -159,12 +165,18 @@ func (c *Conn) Write(b []byte) (int, error) {
 	if p.fin[peer] {
 		if p.WriteAfterPeerCloseOK {
 			p.wrote[me] += len(b)
+			if me == 0 && p.Tap0 != nil {
+				p.Tap0(b)
+			}
 			return len(b), nil
 		}
 		return 0, opErr("write", syscall.EPIPE)
 	}
 	p.buf[me] = append(p.buf[me], b...)
 	p.wrote[me] += len(b)
+	if me == 0 && p.Tap0 != nil {
+		p.Tap0(b)
+	}
 	p.cond.Broadcast()
 	return len(b), nil
 }
